@@ -525,6 +525,25 @@ def do_check(pid, tier, seed):
                 if k >= 8:
                     break
                 samples.append(compact_event(line))
+    # one behaviour generated by TLC (path + expected state), as replayed on the real code
+    for mr in model_runs:
+        bp = os.path.join(wd, "behaviours-%s.ndjson" % mr["cfg"])
+        if os.path.exists(bp) and os.path.getsize(bp) > 0:
+            with open(bp) as f:
+                for k, line in enumerate(f):
+                    if k == 2000 or (k < 2000 and False):
+                        pass
+                    last = line
+                    if k >= 2000:
+                        break
+            try:
+                b = json.loads(last)
+                samples.append({"tlc_behaviour_from": mr["cfg"], "init": b["init"],
+                                "ops": [("feed_str " + repr("".join(chr(c) for c in o["s"]))) if o["k"] == "fs" else "resize %dx%d" % (o["c"], o["r"]) for o in b["ops"]],
+                                "expected_cursor": [b["st"]["t"]["col"], b["st"]["t"]["row"]]})
+            except Exception:
+                pass
+            break
     episodes = sum(g.get("episodes", 0) for g in gen_stats)
     distinct = sum(g.get("distinct_nontrivial", 0) for g in gen_stats)
     ev = {
@@ -541,6 +560,7 @@ def do_check(pid, tier, seed):
             "distinct_nontrivial": distinct,
             "rule": plan.get("rule", ""),
             "exhaustive": bool(tp.get("exhaustive", False)),
+            "bounded_models_enumerated_completely": bool(model_runs),
             "model_states_distinct": model_states,
             "model_transitions": model_trans,
             "model_runs": model_runs,
